@@ -190,6 +190,17 @@ def run(check):
         generic_names_part(check)
     if not check.has_failing():
         layout_part(check)
+    if not check.has_failing():
+        # "a function of sources, configuration and options only": also not of what an earlier run left at the destination
+        v_now = "#[typeshare]\npub struct Settings { pub a: u8 }\n\n#[typeshare]\npub enum Mode { Fast, Slow }\n"
+        v_before = v_now + "\n#[typeshare]\npub struct LegacySettings { pub old_field_one: String, pub old_field_two: Vec<u32>, pub old_field_three: Option<bool> }\n"
+        for lang in LANGS:
+            prob = dirty_destination(check, "c06", lang, {"src/lib.rs": v_now}, earlier_sources={"src/lib.rs": v_before})
+            if prob:
+                check.violation("%s: the output depends on what the destination held before the run (%s): it is not what the same sources and "
+                                "options give in a fresh destination" % (lang, prob["state"]), case=prob, impl=prob["file_after_run"],
+                                model=prob["fresh_run"], failing_input=True)
+                break
     check.assumptions += ["a schedule is abstracted to an arrival order of per-file results plus hash iteration orders; real races inside ignore/crossbeam are realised only through the collector hook and repeated runs",
                           "the walker delivers every visible *.rs file exactly once (ignore crate, external)"]
 
